@@ -743,13 +743,22 @@ impl<S: Syntax, D> SyntaxNode<S, D> {
     /// Return the leftmost token in the subtree of this node
     #[inline]
     pub fn first_token(&self) -> Option<&SyntaxToken<S, D>> {
-        self.first_child_or_token()?.first_token()
+        // The first child may be a node without any tokens, so look for the first child that has one.
+        self.children_with_tokens().find_map(|element| element.first_token())
     }
 
     /// Return the rightmost token in the subtree of this node
     #[inline]
     pub fn last_token(&self) -> Option<&SyntaxToken<S, D>> {
-        self.last_child_or_token()?.last_token()
+        // The last child may be a node without any tokens, so look for the last child that has one.
+        let mut current = self.last_child_or_token();
+        while let Some(element) = current {
+            if let Some(token) = element.last_token() {
+                return Some(token);
+            }
+            current = element.prev_sibling_or_token();
+        }
+        None
     }
 
     /// Returns an iterator over all sibling nodes of this node in the given `direction`, i.e. all of
